@@ -244,7 +244,7 @@ func (ex *exampleValidator) validateExampleValueSchemaAgainstSchema(path, in str
 	s := ex.SpecValidator
 	res := pools.poolOfResults.BorrowResult()
 
-	if schema.Example != nil {
+	if schema.Example != nil && s.canValidateAgainst(schema) {
 		// validate against a copy: the validator expands a $ref in place, and schema may point into the parsed spec
 		sch := *schema
 		res.MergeAsWarnings(
